@@ -597,4 +597,37 @@ theorem roundtrip_fails_no_eol_strip {P : Params} (hw : P.isWhite ' ' = true)
   rw [h]
   simp [reread, sourceKind, hu, hne]
 
+/-- `no-eol` keeps its text: the round trip holds exactly when the printable rendering is the text -/
+theorem roundtrip_noEol_iff {P : Params} (hw : P.isWhite ' ' = true)
+    (hsub : ∀ c, P.isWhite c = true → P.isSpaceStd c = true) {b : List UInt8} {o m : Bool}
+    (hnl : '\n' ∉ P.escPrintable b) :
+    parse P (toExpressionString P ⟨.noEol, b, o, m⟩) = .ok ⟨.noEol, b, o, m⟩ ↔
+      utf8 (P.escPrintable b) = b := by
+  have h := roundtrip_iff hw hsub (e := ⟨.noEol, b, o, m⟩) (by simpa [sourceText] using hnl)
+  rw [reread_eq (by intro hk; cases hk)] at h
+  simpa [sourceKind, sourceText, makeRule] using h
+
+/-- the open finding `C08:escaped-pattern-roundtrip` on its witness `a<TAB> (no-eol)`: the
+    expression is displayed as `a\t`, which is what reads back -/
+theorem roundtrip_fails_escaped_pattern {P : Params} (hw : P.isWhite ' ' = true)
+    (hsub : ∀ c, P.isWhite c = true → P.isSpaceStd c = true)
+    (ht : P.escPrintable [0x61, 0x09] = ['a', '\\', 't']) :
+    parse P (toExpressionString P ⟨.noEol, [0x61, 0x09], false, false⟩) =
+      .ok ⟨.noEol, [0x61, 0x5c, 0x74], false, false⟩ ∧
+    parse P (toExpressionString P ⟨.noEol, [0x61, 0x09], false, false⟩) ≠
+      .ok ⟨.noEol, [0x61, 0x09], false, false⟩ := by
+  have hnl : '\n' ∉ sourceText P ⟨.noEol, [0x61, 0x09], false, false⟩ := by simp [sourceText, ht]
+  have h := parse_render hw hsub hnl
+  have hu : utf8 ['a', '\\', 't'] = [0x61, 0x5c, 0x74] := by decide
+  simp only [sourceKind, sourceText, ht, makeRule, hu] at h
+  have h' : parse P (toExpressionString P ⟨.noEol, [0x61, 0x09], false, false⟩) =
+      .ok ⟨.noEol, [0x61, 0x5c, 0x74], false, false⟩ := by simpa using h
+  refine ⟨h', ?_⟩
+  rw [h']
+  intro hc
+  injection hc with hc
+  injection hc with _ hx
+  revert hx
+  decide
+
 end Scrut.Grammar
